@@ -175,6 +175,10 @@ func init() {
 	add("#eacute", "é", "len", "pattern") // 2 bytes, 1 character
 	add("", "a.b", "pattern")
 	add("#nl", "\n", "pattern")
+	// property / discriminator field names of the object universe (map keys are tokens)
+	for _, n := range []string{"e", "l", "ls", "m", "x", "s", "sp", "n", "u", "type", "B", "kind"} {
+		add("", n, "name")
+	}
 	// integer readings
 	for _, s := range []string{"0", "1", "2", "3", "-1"} {
 		add("", s, "int", "float", "bool", "unit", "basic", "key", "pattern", "len")
